@@ -192,7 +192,15 @@ pub fn run_case(case: &Case, out: &mut Out) {
                     None => { out.viol("panic op=iterate_till_point", ""); out.panic(); }
                     Some(Err(e)) => out.err(err_class(&e)),
                     Some(Ok(Err(c))) => out.err(c),
-                    Some(Ok(Ok(v))) => out.ok(digest(&v)),
+                    Some(Ok(Ok(v))) => {
+                        // on a run of blocks in slot order the helper alone must already refuse an exact point no block has
+                        let hash2 = unhex(&op[2]).unwrap();
+                        if !hash2.is_empty() && blocks.windows(2).all(|w| w[0].0 < w[1].0) && !blocks.is_empty()
+                            && !blocks.iter().any(|b| b.0 == slot && b.1[..] == hash2[..]) {
+                            out.viol(format!("absent-exact-point-accepted where=hook-{}", where_is(&blocks, slot)), format!("slot {slot} hash {}: Ok with {} blocks", op[2], v.len()));
+                        }
+                        out.ok(digest(&v))
+                    }
                 }
             }
             _ => out.reply("bad-op".into()),
@@ -204,25 +212,50 @@ pub fn run_case(case: &Case, out: &mut Out) {
     if deep_exact && fuzzy_between && absent { out.nontrivial(); }
 }
 
+/// every way a (slot, hash) pair can miss block `i` of the chain while staying close to it:
+/// its hash at a neighbouring / gap slot, its slot with a neighbour's hash, gap slots with either
+/// neighbour's hash
+fn near_misses(chain: &[B], i: usize) -> Vec<String> {
+    let b = &chain[i];
+    let mut q = vec![];
+    let with = |slot: u64, h: &[u8; 32]| format!("from {} {}", slot, hex(h));
+    // right hash, wrong slot: just below (the slot the skip loop stops *before*), just above, far below / above
+    for s in [b.0.wrapping_sub(1), b.0 + 1, b.0.saturating_sub(1000), b.0 + 1000] { if s != b.0 { q.push(with(s, &b.1)); } }
+    if i > 0 {
+        let p = &chain[i - 1];
+        // right slot, neighbour's hash; neighbour's slot, this hash
+        q.push(with(b.0, &p.1)); q.push(with(p.0, &b.1));
+        // a slot in the gap between the two (if there is one) with either hash
+        if b.0 - p.0 > 1 { let mid = p.0 + (b.0 - p.0) / 2; q.push(with(mid, &b.1)); q.push(with(mid, &p.1)); q.push(with(p.0 + 1, &b.1)); }
+    }
+    if i + 1 < chain.len() { let n = &chain[i + 1]; q.push(with(b.0, &n.1)); q.push(with(n.0, &b.1)); }
+    q
+}
+
 fn queries(g: &mut Gen, chain: &[B], all: &[B], n: usize, exhaustive: bool) -> Vec<String> {
     let mut q = vec![];
     let exact = |b: &B| format!("from {} {}", b.0, hex(&b.1));
     if exhaustive {
-        for b in chain { q.push(exact(b)); q.push(format!("from {} -", b.0)); q.push(format!("from {} -", b.0 + 1)); q.push(format!("from {} -", b.0.saturating_sub(1))); }
+        for (i, b) in chain.iter().enumerate() {
+            q.push(exact(b)); q.push(format!("from {} -", b.0)); q.push(format!("from {} -", b.0 + 1)); q.push(format!("from {} -", b.0.saturating_sub(1)));
+            q.extend(near_misses(chain, i));
+        }
     }
     for _ in 0..n {
         if chain.is_empty() { break; }
-        let b = g.rng.pick(chain).clone();
-        q.push(match g.rng.below(12) {
+        let i = g.rng.below(chain.len() as u64) as usize;
+        let b = chain[i].clone();
+        q.push(match g.rng.below(16) {
             0..=3 => exact(&b),
             4 => format!("from {} -", b.0),
             5 => format!("from {} -", b.0 + 1 + g.rng.below(3)),
             6 => format!("from {} -", b.0.saturating_sub(1 + g.rng.below(3))),
             7 => { let mut h = b.1; h[g.rng.below(32) as usize] ^= 1; format!("from {} {}", b.0, hex(&h)) }            // wrong hash at a block slot
-            8 => format!("from {} {}", b.0 + 1, hex(&b.1)),                                                                // right hash, wrong slot
+            8 => format!("from {} {}", b.0 + 1, hex(&b.1)),                                                                // right hash, slot just above
             9 => { let z = chain.last().unwrap(); format!("from {} {}", z.0 + 1 + g.rng.below(2000), if g.rng.chance(1, 2) { hex(&z.1) } else { "-".into() }) }
             10 => { let a = chain.first().unwrap(); format!("from {} {}", a.0.saturating_sub(1 + g.rng.below(2000)), if g.rng.chance(1, 2) { hex(&a.1) } else { "-".into() }) }
-            _ => { let m = g.rng.pick(all); exact(m) }                                                                       // maybe a block of the mutable chunk
+            11 => { let m = g.rng.pick(all); exact(m) }                                                                      // maybe a block of the mutable chunk
+            _ => { let nm = near_misses(chain, i); g.rng.pick(&nm).clone() }                                                 // right hash / wrong slot, right slot / neighbour hash, gap slots
         });
     }
     q
@@ -243,6 +276,16 @@ pub fn generate(g: &mut Gen) {
         ops.push("readall".into()); ops.push("tip".into()); ops.push("origin".into());
         let n = if g.thorough() { 150 } else { 14 };
         ops.extend(queries(g, &blocks[..immutable], &blocks, n, false));
+        // near misses around the first and last block of every immutable chunk, the first block of the chain and a sample
+        {
+            let chain = &blocks[..immutable];
+            let mut at = vec![0usize, immutable.saturating_sub(1)];
+            let mut pos = 0;
+            for gr in &groups[..groups.len() - 1] { at.push(pos); pos += gr.len(); at.push(pos - 1); }
+            for _ in 0..(if g.thorough() { 40 } else { 3 }) { at.push(g.rng.below(immutable as u64) as usize); }
+            at.sort(); at.dedup();
+            for i in at { if i < chain.len() { let nm = near_misses(chain, i); if g.thorough() { ops.extend(nm); } else { ops.extend(nm.into_iter().take(3)); } } }
+        }
         g.case(ops);
     }
     for case in 0..g.cases {
@@ -262,7 +305,8 @@ pub fn generate(g: &mut Gen) {
                     if g.rng.chance(1, 4) && bs.len() > 2 { let i = g.rng.below(bs.len() as u64 - 1) as usize; bs.swap(i, i + 1); }
                     let (slot, hash) = if bs.is_empty() || g.rng.chance(1, 5) { (g.rng.below(50_000_000), "-".to_string()) } else {
                         let b = g.rng.pick(&bs).clone();
-                        match g.rng.below(4) { 0 => (b.0, hex(&b.1)), 1 => (b.0 + 1, "-".into()), 2 => (b.0 + 100000, hex(&b.1)), _ => (b.0, "-".into()) }
+                        match g.rng.below(7) { 0 => (b.0, hex(&b.1)), 1 => (b.0 + 1, "-".into()), 2 => (b.0 + 100000, hex(&b.1)), 3 => (b.0 - 1, hex(&b.1)), 4 => (b.0 + 1, hex(&b.1)),
+                            5 => (b.0, hex(&g.rng.pick(&bs).1)), _ => (b.0, "-".into()) }
                     };
                     ops.push(format!("till {} {} {}", slot, hash, bs.iter().map(tok).collect::<Vec<_>>().join(" ")));
                 }
